@@ -92,6 +92,11 @@ func ChildLoop(handle func(fields []string) []string) {
 
 			return handle(fields[1:])
 		}()
+		if Injected() != "" {
+			// Finalise what this command leaked now, after its window and before
+			// the end marker: the parent hands these closes to the next window.
+			quiesce()
+		}
 		// An empty window if the command had none, so that the parent can always
 		// synchronise on the end marker.
 		marker("z", n)
@@ -163,6 +168,9 @@ func closedFd(ev string) int {
 // Start launches the current test binary again, under strace, in child mode.
 func Start(t testing.TB, testName, dir string) (c *Child) {
 	tracePath := filepath.Join(dir, "strace.out")
+	if keep := os.Getenv("VERIF_C14_KEEPTRACE"); keep != "" {
+		tracePath = keep
+	}
 	tf, err := os.Create(tracePath)
 	if err != nil {
 		t.Fatal(err)
@@ -300,7 +308,11 @@ func (c *Child) readLine(deadline time.Time) (string, error) {
 // readWindow consumes the trace up to the final marker of command n.
 func (c *Child) readWindow(n int) (events []string, err error) {
 	deadline := time.Now().Add(60 * time.Second)
-	in := false
+	// Closes of leaked descriptors outside the window: those seen before it began
+	// (or after the previous one ended) are reported in front of its events, those
+	// seen after it ended wait for the next window — never in front of the open
+	// they belong to.
+	in, began, ended := false, false, false
 	carry := c.carry
 	c.carry = nil
 	defer func() {
@@ -326,10 +338,17 @@ func (c *Child) readWindow(n int) (events []string, err error) {
 			if s, isStr := unquote(p); isStr && strings.HasPrefix(s, markerRoot) {
 				switch m := s[len(markerRoot):]; {
 				case m == "b"+strconv.Itoa(n):
-					in = true
+					in, began = true, true
 				case m == "e"+strconv.Itoa(n):
-					in = false
+					in, ended = false, true
 				case m == "z"+strconv.Itoa(n):
+					if !began {
+						// A command without a window (reset, put): its events are not
+						// reported, so keep the closes for the next save.
+						c.carry = append(carry, c.carry...)
+						carry = nil
+					}
+
 					return events, nil
 				}
 
@@ -346,8 +365,12 @@ func (c *Child) readWindow(n int) (events []string, err error) {
 			events = append(events, ev)
 		case strings.HasPrefix(ev, "x:") && c.inWin[closedFd(ev)]:
 			// A tracked descriptor closed between windows (a leaked file finalised
-			// by the garbage collector): report it with the next window.
-			carry = append(carry, ev)
+			// by the garbage collector).
+			if ended {
+				c.carry = append(c.carry, ev)
+			} else {
+				carry = append(carry, ev)
+			}
 		}
 	}
 }
